@@ -129,6 +129,37 @@ func c16MsgFor(rt *rapid.T, allow []int) c16Msg {
 	return m
 }
 
+// c16WindowStress follows a freshly created periodic session with three
+// session-signed sends: ~2/3 of the limit right away, the same again one second
+// before the first window ends (must not fit), and again at the boundary.
+func c16WindowStress(o c16Op, second bool) []c16Op {
+	sendOK := false
+	for _, a := range o.Allow {
+		sendOK = sendOK || a == 0 || a == 3
+	}
+	var amt int64
+	k := 1
+	switch o.Limit {
+	case 300_000:
+		amt = 200_000
+	case 1_000_000:
+		amt, k = 200_000, 3
+	case 3_000_000:
+		amt = 1_500_000
+	}
+	if !sendOK || amt == 0 || o.Period < 4 {
+		return nil
+	}
+	mk := func(dt int64) c16Op {
+		so := c16Op{Kind: "stx", DT: dt, Master: o.Master, Sess: o.Sess, Fee: 1, Second: second}
+		for i := 0; i < k; i++ {
+			so.Msgs = append(so.Msgs, c16Msg{Kind: "send", Amt: amt})
+		}
+		return so
+	}
+	return []c16Op{mk(1), mk(o.Period - 2), mk(1)}
+}
+
 // c16Gen is generator-side bookkeeping (what the history created so far), used
 // only to aim traffic at live sessions and at expiry / period boundaries.
 type c16Gen struct {
@@ -257,7 +288,14 @@ func c16Draw(rt *rapid.T) c16Case {
 	allowOf := map[[2]int][]int{}
 	g := &c16Gen{created: map[[2]int]int64{}, expires: map[[2]int]int64{}, period: map[[2]int]int64{}}
 	for i := 0; i < n; i++ {
-		c.Ops = append(c.Ops, c16DrawOp(rt, i == 0, &live, allowOf, g))
+		o := c16DrawOp(rt, i == 0, &live, allowOf, g)
+		c.Ops = append(c.Ops, o)
+		if o.Kind == "create" && rapid.IntRange(0, 2).Draw(rt, "stress") == 1 {
+			for _, so := range c16WindowStress(o, rapid.Bool().Draw(rt, "stress2nd")) {
+				g.clock += so.DT
+				c.Ops = append(c.Ops, so)
+			}
+		}
 	}
 	return c
 }
